@@ -33,6 +33,11 @@ Prefixes == {<<>>, <<61>>, <<60, 62>>, <<60>>, <<60, 61>>, <<62>>, <<62, 61>>}
 Operands == {<<49>>, <<45, 53>>, <<48, 46, 53>>, abc, <<b_>>}          \* 1  -5  0.5  abc  b
 Crits == {Txt(p \o o) : p \in Prefixes, o \in Operands} \cup {Whole(1), Whole(-5), Rat(1, 2)}
 
+\* numeric operands in exponent notation (the spelling the library itself produces for small / large numbers): 1e1  5E-1  1E+1
+ExpOperands == {<<49, 101, 49>>, <<53, 69, 45, 49>>, <<49, 69, 43, 49>>}
+ExpCrits == {Txt(p \o o) : p \in Prefixes, o \in ExpOperands}
+VE == {Whole(10), Rat(1, 2), Whole(0), Whole(11), Txt(<<49, 101, 49>>), Txt(abc)}
+
 \* a few criteria for the multi-column functions:  >0  <>abc  b  <=1  1  <b  <-1
 CF  == {Txt(<<62, 48>>), Txt(<<60, 62>> \o abc), Txt(<<b_>>), Txt(<<60, 61, 49>>), Whole(1),
         Txt(<<60, b_>>), Txt(<<60, 45, 49>>)}
@@ -69,6 +74,7 @@ InitCase ==
   \* --- COUNTIF: every column x every criterion
   \/ \E k \in 1..MaxCol : \E c \in [1..k -> V], cr \in Crits :
         (k < 4 \/ Keep(c, cr)) /\ case = C("COUNTIF", <<ColArr(c), cr>>)
+  \/ \E k \in 1..2 : \E c \in [1..k -> VE], cr \in ExpCrits : case = C("COUNTIF", <<ColArr(c), cr>>)
   \/ \E c \in [1..4 -> V2], cr \in Crits :
         case = C("COUNTIF", <<Arr(<<<<c[1], c[2]>>, <<c[3], c[4]>>>>), cr>>)
   \* --- COUNTIFS with 1, 2, 3 criteria columns
@@ -163,7 +169,8 @@ LawCaseInsensitive ==
 
 \* a negative operand is a number: "<-5" never matches a text, "=-5" matches the number -5
 LawNegativeOperand ==
-    (Done /\ F = "COUNTIF" /\ A[2].t = "txt" /\ Len(A[2].v) >= 2 /\ A[2].v[Len(A[2].v) - 1] = 45)
+    (Done /\ F = "COUNTIF" /\ A[2].t = "txt" /\ Len(A[2].v) >= 2 /\ A[2].v[Len(A[2].v) - 1] = 45
+          /\ \A i \in 1..Len(A[2].v) : A[2].v[i] \notin {69, 101})          \* (not the sign of an exponent)
     => CritOf(A[2]).v = Whole(-5) /\ CritOf(A[2]).ok
 
 LawCountifsSingle ==
